@@ -273,7 +273,7 @@ sub_v3v4 (Ctx& c, uint64_t idx)
         if (!undefined && qmax < lim) c.fail (key ("Vec3fromVec4Exc", tag, "guard_fired_early"), idx, describe);
         // the unchecked form's "failure": a non-finite or huge component
         if (undefined) c.cls ("threw_w_zero");
-        else c.cls ("threw_overflow_guard");
+        else { c.cls ("threw_overflow_guard"); c.worst ((std::string ("Vec3fromVec4Exc.") + tag + ".(max/4)/exact_quotient_when_fired").c_str (), (double) (lim / qmax), idx); }
     }
     if (idx < (uint64_t) (WC_N * NC_N)) c.sample ((std::string (WCN[wc]) + "/" + NCN[nc]).c_str (), describe);
 }
